@@ -20,7 +20,12 @@ type runModel struct {
 	readFile *ssa.Call // os.ReadFile
 	content  ssa.Value // its []byte
 	filename ssa.Value // its argument
-	parse    *ssa.Call // parser.ParseFile on the content
+	parse    *ssa.Call // parser.ParseFile on the content (in Run, or in the helper that loads a file)
+	// loadSite is the instruction of Run's loop that stands for "the file is read and parsed": the
+	// parser.ParseFile call itself, or the call to the private helper that contains it. parsed is the
+	// *ast.File as Run sees it.
+	loadSite ssa.Instruction
+	parsed   ssa.Value
 	apply    *ssa.Call // (*patchRunner).Apply
 	fout     ssa.Value
 	comments ssa.Value
@@ -59,16 +64,60 @@ func buildRunModel(r *an.Run) *runModel {
 	if m.opts == nil {
 		return bad("the options value (second result of newArgParser)")
 	}
-	rf := an.CallsTo(f, osReadFile)
+	// the read: in Run itself, or in a private helper Run calls from its per-file loop
+	var rf []ssa.CallInstruction
+	for _, g := range helperGroup(f, 2) {
+		if g.Name() == "writeFileAtomic" {
+			continue // re-reading the target while replacing it is not "the" read
+		}
+		rf = append(rf, an.CallsTo(g, osReadFile)...)
+	}
 	if len(rf) != 1 {
 		return bad("exactly one os.ReadFile call")
 	}
 	m.readFile = rf[0].(*ssa.Call)
-	if ex := an.ExtractOf(m.readFile, 0); len(ex) > 0 {
-		m.content = ex[0]
+	readSite := siteIn(f, m.readFile)
+	if readSite == nil {
+		return bad("the place in Run where the file is read")
 	}
-	m.filename = m.readFile.Call.Args[0]
-	l := an.LoopOf(f, m.readFile.Block())
+	var readContent ssa.Value // the bytes where they are read
+	if ex := an.ExtractOf(m.readFile, 0); len(ex) > 0 {
+		readContent = ex[0]
+	}
+	m.content, m.filename = readContent, m.readFile.Call.Args[0]
+	if readSite != ssa.Instruction(m.readFile) {
+		// read inside a helper: the content is the helper's []byte result that is the ReadFile result, the
+		// name is the argument bound to the parameter that names the file
+		hc, ok := readSite.(*ssa.Call)
+		if !ok {
+			return bad("the result of the helper that reads the file")
+		}
+		m.content = nil
+		h := an.StaticCallee(hc)
+		for i := 0; h != nil && i < h.Signature.Results().Len(); i++ {
+			if an.ShortType(h.Signature.Results().At(i).Type()) != "[]byte" {
+				continue
+			}
+			fromRead := true
+			for _, leaf := range returnedLeaves(h, i, 0) {
+				if !an.IsNilConst(leaf) && !derivesFromAcross(leaf, readContent) {
+					fromRead = false
+				}
+			}
+			if ex := an.ExtractOf(hc, i); fromRead && len(ex) > 0 {
+				m.content = ex[0]
+			}
+		}
+		if m.content == nil {
+			return bad("the bytes read from the file as a result of the loading helper")
+		}
+		if p, isParam := an.Unwrap(m.filename).(*ssa.Parameter); isParam && an.Actual(p) != nil {
+			m.filename = an.Actual(p)
+		} else {
+			return bad("the file name handed to the loading helper")
+		}
+	}
+	l := an.LoopOf(f, readSite.Block())
 	if l == nil {
 		return bad("the per-file loop around os.ReadFile")
 	}
@@ -76,16 +125,40 @@ func buildRunModel(r *an.Run) *runModel {
 	if m.loop == nil {
 		return bad("an index/range form of the per-file loop")
 	}
-	for _, c := range an.CallsTo(f, parserParse) {
-		call := c.(*ssa.Call)
-		// the parse of the target: inside the loop, after the read, fed (possibly through a transformation) by what was read
-		if m.loop.Loop.Blocks[call.Block()] && m.readFile.Block().Dominates(call.Block()) && m.parse == nil &&
-			derivesFrom(call.Call.Args[2], m.content) {
-			m.parse = call
+	for _, g := range helperGroup(f, 2) {
+		for _, c := range an.CallsTo(g, parserParse) {
+			call := c.(*ssa.Call)
+			// the parse of the target: inside the loop, after the read, fed (possibly through a transformation) by what was read
+			site := siteIn(f, call)
+			if site == nil || !m.loop.Loop.Blocks[site.Block()] || m.parse != nil {
+				continue
+			}
+			if !(site == readSite || an.InstrDominates(readSite, site)) {
+				continue
+			}
+			if derivesFromAcross(call.Call.Args[2], readContent) {
+				m.parse, m.loadSite = call, site
+			}
 		}
 	}
 	if m.parse == nil {
 		return bad("the parser.ParseFile call on the file's content")
+	}
+	if m.loadSite == ssa.Instruction(m.parse) {
+		if ex := an.ExtractOf(m.parse, 0); len(ex) > 0 {
+			m.parsed = ex[0]
+		}
+	} else if hc, ok := m.loadSite.(*ssa.Call); ok {
+		for i := 0; i < hc.Call.Signature().Results().Len(); i++ {
+			if an.ShortType(hc.Call.Signature().Results().At(i).Type()) == "*ast.File" {
+				if ex := an.ExtractOf(hc, i); len(ex) > 0 {
+					m.parsed = ex[0]
+				}
+			}
+		}
+	}
+	if m.parsed == nil {
+		return bad("the parsed file as Run sees it")
 	}
 	for _, c := range an.Calls(f) {
 		if sc := an.StaticCallee(c); sc != nil && sc == r.P.Func(mainP, "patchRunner.Apply") {
